@@ -5,13 +5,15 @@ SPEC = {
     "shard": 70,
     "tie_codes": (),
     "trusted_base": [
-        "/repo hook html/layout/verif_export_c13.go (VerifC13FixedTableLayout, VerifC13ResolveTable)",
+        "/repo hooks html/layout/verif_export_c13.go (VerifC13FixedTableLayout, VerifC13ResolveTable) and verif_export_c13_auto.go (VerifC13AutoTableLayout: box tree and layout context built as Layout does, percentages of the first table wrapper / table resolved against the page width, tableAndColumnsPreferredWidths' result copied, autoTableLayout run)",
         "Base/F32.v rounding model (validated by C17's CRound/CArith cases)",
         "fonts: Ahem from /repo/resources_test (cell contents only influence the inputs of the modelled functions: column widths, natural cell heights)",
-        "projection in go/cmd/c13: inputs of fixedTableLayout as the code resolved them (column / cell used widths), GridX/Colspan/Rowspan from a second BuildFormattingStructure of the same document, a cell's natural height = final border height minus the padding added by the row-height step (vertical-align: top in the generated documents)",
-        "percentage resolution, block layout of cell contents, preferred widths and the auto width distribution are not modelled (C10/C11 and the contract predicate)",
+        "grid cases (CGrid): the table STRUCTURE (row groups in document order with their tag, rows, cells with their colspan / rowspan attributes) is taken from the generator's specification of the document (corpus files: from the HTML parse by golang.org/x/net/html), never from the boxes; it is compared with GridX/Colspan/Rowspan and the IsHeader/IsFooter order of the table box returned by BuildFormattingStructure",
+        "structural tags used by the known-finding matchers are computed in go/cmd/c13 by a second statement of the slot rule; its grid width and number of columns with an originating cell are re-derived by the proved model on every case (code 15)",
+        "projection in go/cmd/c13: inputs of fixedTableLayout as the code resolved them (column / cell used widths), GridX/Colspan/Rowspan from a second BuildFormattingStructure of the same document (tied to the structure by the CGrid case of the same document), a cell's natural height = final border height minus the padding added by the row-height step (vertical-align: top in the generated documents)",
+        "percentage resolution, block layout of cell contents and the preferred widths (tableAndColumnsPreferredWidths: min-/max-content widths, intrinsic percentages, constrainedness, total spacing) are not modelled: they are inputs of the auto layout model read from /repo",
     ],
-    "not_modelled": ["autoTableLayout / distributeExcessWidth / tableAndColumnsPreferredWidths (contract predicate only)",
+    "not_modelled": ["tableAndColumnsPreferredWidths and the colspan calls of distributeExcessWidth inside it (contract predicate only; autoTableLayout and its top-level distributeExcessWidth ARE modelled)",
                      "collapsed borders conflict resolution", "RTL tables", "page breaks inside tables", "baseline alignment of cells (vertical-align: baseline)",
                      "column / column group boxes' own geometry"],
     "codes": {"1": "column positions / cell x / width / border-box width / kept cells differ from the float32 model",
@@ -21,30 +23,44 @@ SPEC = {
               "8": "row / row group positions or heights, cell y or final cell heights differ from the float32 model",
               "9": "auto layout counted border-spacing only for the columns in which a cell originates",
               "10": "a cell does not reach the bottom edge of the last row it spans",
-              "12": "auto layout made the table narrower than its specified width"},
+              "12": "auto layout made the table narrower than its specified width",
+              "13": "GridX / Colspan / Rowspan of a cell, or the order / header / footer role of the row groups, differ from the slot model run on the table structure (row groups x rows x cells with their span attributes)",
+              "14": "the auto layout did not use the number of columns of the grid computed from the table structure",
+              "15": "harness defect: the structural facts computed for the tags differ from the model's",
+              "16": "autoTableLayout's column widths or used table width differ from the float32 model run on the preferred widths the implementation computed",
+              "17": "the preferred widths satisfy the hypotheses of C13_auto_layout_fills but columns + total spacing differ from the used table width"},
     "theorems_for_kind": {
         "fixed": "C13_fixed_layout_fills", "corpus-fixed": "C13_fixed_layout_fills",
+        "fixed-grid": "C13_table_grid / C13_slots / C13_group_without_rowspan_packed", "layout-grid": "C13_table_grid / C13_slots / C13_group_without_rowspan_packed",
+        "corpus-grid": "C13_table_grid / C13_slots",
+        "layout-auto": "C13_auto_layout_fills / C13_distribute_excess_conserves", "corpus-auto": "C13_auto_layout_fills / C13_distribute_excess_conserves",
         "layout-horiz": "C13_column_positions / C13_cell_horizontal / C13_columns_adjacent / C13_columns_disjoint",
         "layout-vert": "C13_rowspan_heights_spec", "layout-widths": "C13_auto_layout_contract_partial (hypotheses of the grid theorems)",
         "corpus-horiz": "C13_cell_horizontal", "corpus-vert": "C13_rowspan_heights_spec", "corpus-widths": "C13_auto_layout_contract_partial",
     },
-    "rule": "SplitMix64-seeded tables: 1-3 row groups (thead/tbody/tfoot) x 1-4 rows x 0-6 cells, colspan 1-4, rowspan 0/2/3/5 (overflowing the group), "
+    "rule": "SplitMix64-seeded tables: 1-3 row groups (thead/tbody/tfoot in any document order) x 1-4 rows x 0-6 cells, colspan 1-4, rowspan 0/2/3/5 (overflowing the group); "
+            "1 in 4 tables is a grid stress table: 2-4 row groups incl. repeated thead/tfoot, 2-4 rows each, every second cell row-spanning, out-of-range span attributes (colspan 0/-1/-3, rowspan -1/-2/65535/70000); "
+            "every document gives one grid case (structure vs GridX/Colspan/Rowspan/group order, column count of the auto layout); "
             "col / colgroup with span and widths, caption, table-layout fixed|auto, width auto|px|%, border-spacing in half pixels, 1 in 8 border-collapse, "
             "cell padding / border / width / height, row heights, Ahem words as content; 1 in 3 documents goes to the fixedTableLayout unit stream, the others are "
-            "laid out by layout.Layout and give one horizontal, one vertical and one column-width case each; corpus/C13/*.html first; distinct by Coq term",
+            "laid out by layout.Layout and give one grid, one horizontal, one vertical, one column-width and one autoTableLayout case each; corpus/C13/*.html first; distinct by Coq term",
 }
 MANIFEST = {
     "text": "Coq theorems over a Gallina port of the table geometry of html/layout/tables.go (fixedTableLayout; column positions; cell x/width with "
             "colspan clipping; row positions, row heights from the cells ending in each row, stretching of row-spanning cells; row group heights) and of the "
-            "grid-slot assignment of wrapTable (shared with C09): column positions equal the closed form x0 + (j+1) spacing + previous widths, hence cells "
+            "grid-slot assignment of wrapTable (shared with C09) run on the table structure (row groups x rows x cells with their span attributes, header / footer "
+            "extraction, clamping of the attributes): every row group is assigned on its own, a group without row-spanning cell and the first row of every group are "
+            "laid side by side from column 0, no cell covers the anchor column of a later one; column positions equal the closed form x0 + (j+1) spacing + previous widths, hence cells "
             "starting/ending in the same column share that edge, a spanning cell is exactly its columns plus inner spacing, adjacent columns are one "
             "border-spacing apart, disjoint column ranges do not overlap; every cell spans exactly from the top of its first row to the bottom of its "
             "last row and no row has a negative height; fixed layout fills the used width, never below the specified width, no negative column. The float32 "
-            "instance of the same definitions is compared bit for bit with /repo on generated tables on every run; the auto width distribution is only "
-            "checked against the contract predicate (columns + spacing = used width >= specified width, no negative width).",
-    "note": "Partial: autoTableLayout/distributeExcessWidth are not modelled (C13_auto_layout_contract_statement), two known findings there (spacing of "
-            "columns without originating cell; table shrunk below its specified width). Full pairwise disjointness of slots is refuted for colspan-over-rowspan "
+            "instance of the same definitions is compared bit for bit with /repo on generated tables on every run, and the GridX / Colspan / Rowspan of every cell "
+            "with the slot model run on the document's table structure (nothing read back from the implementation); autoTableLayout and distributeExcessWidth are modelled given the preferred widths "
+            "(theorem: columns + total spacing = used width in every branch; refutation: used width >= specified width) and compared bit for bit with /repo; "
+            "the preferred widths themselves are only checked against the contract predicate (columns + spacing = used width >= specified width, no negative width).",
+    "note": "Partial: tableAndColumnsPreferredWidths is not modelled (C13_auto_layout_contract_statement stays a statement about the whole algorithm), two known findings (spacing of "
+            "columns without originating cell, in the preferred widths; table shrunk below its specified width, proved of the model: C13_auto_layout_keeps_specified_width_refuted). Full pairwise disjointness of slots is refuted for colspan-over-rowspan "
             "markup (see C09). Vertical theorems cover separated and collapsed borders alike but not baseline alignment, RTL, or tables split across pages. "
-            "Trusted: Coq kernel (vm_compute), F32 rounding model, harness projection, hooks html/layout/verif_export_c13.go and html/boxes/verif_export_c09.go.",
+            "Trusted: Coq kernel (vm_compute), F32 rounding model, harness projection, hooks html/layout/verif_export_c13.go, html/layout/verif_export_c13_auto.go.",
     "technique": "Coq proof over executable model + vm_compute correspondence with the Go implementation",
 }
